@@ -1,4 +1,5 @@
 import ScVerif.C09.Codec
+import ScVerif.C09.SendTimeout
 /-! Driver handler for C09.
 
 * `merge <a> <b>`                 → `mergeChanges a b` (`drop` when `send == false`)
@@ -6,6 +7,8 @@ import ScVerif.C09.Codec
                                   `mergeCollectionExcess` machine from its initial state →
                                   `<out>;…|<pending>` with one `<out>` per `e` move (`none` = not enabled)
 * `drun <move>*`                  the same for `DropExcess` over opaque tokens: `r:<tok>` / `e`
+* `send <deadline> <listener>*`   `Bus.Send` with a deadline over listeners `<readyAt>/<cancelledAt>` (`-` = never)
+                                  → `ok@<t>` or `deadline@<t>`
 -/
 namespace ScVerif.C09
 open ScVerif.Line
@@ -27,8 +30,27 @@ def showOut (f : α → String) : Option α → String
 
 def showOuts (xs : List String) : String := if xs.isEmpty then "-" else ";".intercalate xs
 
+def parseOptNat? (s : String) : Option (Option Nat) :=
+  if s = "-" then some none else (parseNat? s).map some
+
+def parseListener? (s : String) : Option Listener :=
+  match s.splitOn "/" with
+  | [r, c] => do
+    let r ← parseOptNat? r
+    let c ← parseOptNat? c
+    pure ⟨r, c⟩
+  | _ => none
+
+def showSendResult : SendResult → String
+  | .ok t => "ok@" ++ toString t
+  | .deadlineExceeded t => "deadline@" ++ toString t
+
 def handle? (toks : List String) : Option String :=
   match toks with
+  | "send" :: dl :: ls => do
+    let dl ← parseNat? dl
+    let ls ← ls.mapM parseListener?
+    pure (showSendResult (busSend dl 0 ls))
   | ["merge", a, b] => do
     let a ← parseChange? a
     let b ← parseChange? b
